@@ -85,7 +85,9 @@ class Run(object):
     def match_finding(self, obligation, case):
         """Return the open finding that lists this failing case, if any."""
         for f in self.open_findings:
-            if not fnmatch.fnmatchcase(obligation, f.get('obligation', '*')):
+            if 'obligation' in f and obligation != f['obligation']:
+                continue
+            if 'obligation_glob' in f and not fnmatch.fnmatchcase(obligation, f['obligation_glob']):
                 continue
             cases = f.get('cases')
             if cases is not None and case in cases:
@@ -184,7 +186,14 @@ class Run(object):
             print('DEGRADED: property=%s undecided obligation %s' % (self.prop, d))
         for n in self.notes:
             print('NOTE: %s' % n)
+        shown = set()
         for v in self.violations:
+            if v['path'] in shown:
+                continue
+            shown.add(v['path'])
+            if len(shown) > 25:
+                print('... (%d violation records in total; see evidence)' % len(self.violations))
+                break
             print('VIOLATION property=%s replay=%s%s' % (
                 self.prop, v['path'], '' if v['replayed'] else ' no-failing-input-found'))
         print('%s: %d obligations, %d discharged, %d bounded cases, %d violations, %.1fs' % (
